@@ -1063,3 +1063,132 @@ func zzC05eOutage() {
 	conn.Close(ctx)
 	vf.Reach("end")
 }
+
+// C05.f: one outage in which the broker refuses the resume of the upstream, of the downstream, or of
+// both (or cuts the connection again while the upstream's resume request is in flight): exactly the
+// refused stream is reported closed with an error and fails with the stream-closed error afterwards;
+// the other stream resumes under its original id and keeps working; the connection itself recovers.
+func zzC05fResumeRefused() {
+	b := zzNewBroker()
+	zzServeStreams(b)
+	serve := b.handler
+	upOutcome := vf.Choose("upstream.resume", 3)     // 0 accepted, 1 refused, 2 connection cut during the exchange
+	downOutcome := vf.Choose("downstream.resume", 2) // 0 accepted, 1 refused
+	vf.Assume(upOutcome != 0 || downOutcome != 0)
+	// a broker that no longer knows a stream also refuses the close request the client then sends
+	closeRefused := vf.Choose("close.request.refused", 2) == 1
+	cuts := 0
+	b.handler = func(t *zzTr, m message.Message) bool {
+		switch r := m.(type) {
+		case *message.UpstreamCloseRequest:
+			if closeRefused {
+				t.in <- zzEncode(&message.UpstreamCloseResponse{RequestID: r.RequestID, ResultCode: message.ResultCodeStreamNotFound})
+				return true
+			}
+		case *message.DownstreamCloseRequest:
+			if closeRefused {
+				t.in <- zzEncode(&message.DownstreamCloseResponse{RequestID: r.RequestID, ResultCode: message.ResultCodeStreamNotFound})
+				return true
+			}
+		case *message.UpstreamResumeRequest:
+			if upOutcome == 1 {
+				t.in <- zzEncode(&message.UpstreamResumeResponse{RequestID: r.RequestID, ResultCode: message.ResultCodeStreamNotFound, ResultString: "gone"})
+				return true
+			}
+			if upOutcome == 2 && cuts == 0 {
+				cuts++
+				go t.Close()
+				return true
+			}
+		case *message.DownstreamResumeRequest:
+			if downOutcome == 1 {
+				t.in <- zzEncode(&message.DownstreamResumeResponse{RequestID: r.RequestID, ResultCode: message.ResultCodeStreamNotFound, ResultString: "gone"})
+				return true
+			}
+		}
+		return serve(t, m)
+	}
+	ev := &zzEvents{}
+	conf := b.config()
+	conf.DisconnectedEventHandler = ev
+	conf.ReconnectedEventHandler = ev
+	n := 0
+	randomString = func() string { n++; return "call-" + string(rune('a'+n)) }
+	conn, err := ConnectWithConfig(conf)
+	vf.Assume(err == nil)
+	vf.Settle()
+	ctx := context.Background()
+	tr1 := b.last()
+	up, err := conn.OpenUpstream(ctx, "session", WithUpstreamFlushPolicyNone(), WithUpstreamResumedEventHandler(ev), WithUpstreamClosedEventHandler(ev))
+	vf.Assume(err == nil)
+	down, err := conn.OpenDownstream(ctx, []*message.DownstreamFilter{{SourceNodeID: "node"}}, WithDownstreamResumedEventHandler(ev), WithDownstreamClosedEventHandler(ev))
+	vf.Assume(err == nil)
+	vf.Settle()
+	var openDown *message.DownstreamOpenRequest
+	for _, m := range tr1.msgs() {
+		if r, ok := m.(*message.DownstreamOpenRequest); ok {
+			openDown = r
+		}
+	}
+	vf.Assume(openDown != nil)
+	tr1.Close()
+	vf.Settle()
+	for i := 0; i < 4; i++ { // keepalive notices; redial(s); resume exchanges
+		vf.Advance(11 * time.Second)
+		vf.Settle()
+	}
+	trN := b.last()
+	if upOutcome == 2 {
+		vf.Assert("recovers-after-the-second-cut", b.dials == 3 && conn.state.Is(connStatusConnected))
+	} else {
+		vf.Assert("connection-recovers", b.dials == 2 && conn.state.Is(connStatusConnected))
+	}
+	id := &message.DataID{Name: "n", Type: "t"}
+	cut := upOutcome == 2
+	// who must have survived: a stream whose resume was accepted on a connection that stayed up
+	if upOutcome == 0 {
+		vf.Assert("accepted-upstream-not-closed", ev.upClosed == 0)
+	}
+	if downOutcome == 0 && !cut {
+		vf.Assert("accepted-downstream-not-closed", ev.downClosed == 0)
+	}
+	// who must have been reported closed: a stream whose resume was refused or cut
+	if upOutcome != 0 {
+		vf.Assert("refused-upstream-reported-closed", ev.upClosed >= 1)
+	}
+	if downOutcome == 1 {
+		vf.Assert("refused-downstream-reported-closed", ev.downClosed >= 1)
+	}
+	vf.Assert("closed-reported-at-most-once", ev.upClosed <= 1 && ev.downClosed <= 1)
+	// every stream is either working on the new connection or reported closed - never silently detached
+	if ev.upClosed == 0 {
+		vf.Assert("upstream-resumed", ev.upResumed >= 1)
+		vf.Assert("upstream-works", up.WriteDataPoints(ctx, id, &message.DataPoint{ElapsedTime: 2}) == nil && up.Flush(ctx) == nil)
+		vf.Settle()
+		vf.Assert("upstream-chunk-on-new-connection", len(zzUpstreamChunksOf(trN)) == 1)
+	} else {
+		werr := up.WriteDataPoints(ctx, id, &message.DataPoint{ElapsedTime: 2})
+		vf.Assert("closed-upstream-fails-with-stream-closed", werr != nil && errors.Is(werr, errors.ErrStreamClosed))
+		ferr := up.Flush(ctx)
+		vf.Assert("closed-upstream-flush-fails", ferr != nil && errors.Is(ferr, errors.ErrStreamClosed))
+	}
+	if ev.downClosed == 0 {
+		vf.Assert("downstream-resumed", ev.downResumed >= 1)
+		trN.push(&message.DownstreamChunk{StreamIDAlias: openDown.DesiredStreamIDAlias, UpstreamOrAlias: &message.UpstreamInfo{SessionID: "s", SourceNodeID: "node", StreamID: zzStreamID1},
+			StreamChunk: &message.StreamChunk{SequenceNumber: 5, DataPointGroups: []*message.DataPointGroup{{DataIDOrAlias: &message.DataID{Name: "x", Type: "t"}, DataPoints: []*message.DataPoint{{ElapsedTime: 1}}}}}})
+		vf.Settle()
+		var dc *DownstreamChunk
+		var derr error
+		blocked := vf.Blocked(func() { dc, derr = down.ReadDataPoints(ctx) })
+		vf.Assert("downstream-works", !blocked && derr == nil && dc != nil && dc.SequenceNumber == 5)
+	} else {
+		var derr error
+		blocked := vf.Blocked(func() { _, derr = down.ReadDataPoints(ctx) })
+		vf.Assert("closed-downstream-fails-with-stream-closed", !blocked && derr != nil && errors.Is(derr, errors.ErrStreamClosed))
+	}
+	// the connection still serves new requests
+	merr := conn.SendMetadata(ctx, &message.BaseTime{SessionID: "session", Name: "after"})
+	vf.Assert("connection-serves-requests", merr == nil)
+	conn.Close(ctx)
+	vf.Reach("end")
+}
